@@ -17,7 +17,7 @@ D = 16 * U
 
 
 def gen(rng):
-    mode = rng.choice(['idle', 'idle', 'running', 'running', 'closed', 'own', 'mixed'])
+    mode = rng.choice(['idle', 'idle', 'running', 'running', 'closed', 'own', 'mixed', 'idle2run'])
     ncall = rng.choice([1, 2, 2, 3, 3])
     callers = []
     for i in range(ncall):
@@ -34,14 +34,21 @@ def gen(rng):
         # caller 0's awaitable waits for an event that caller 1's awaitable sets (both on the target)
         callers[0].update(aw='coro', n=1, role='waiter')
         callers[1].update(aw='coro', n=1, role='setter')
-    return {'mode': mode, 'callers': callers, 'stop_after': rng.choice([0, D, 4 * D]), 'dep': dep}
+    phase2 = []
+    if mode == 'idle2run':
+        # history on one loop: used idle first (some awaitables raise), later run by loop_in_thread and used again
+        for i in range(rng.choice([1, 2])):
+            phase2.append({'start': rng.choice([0, 0, U, D]), 'dur': rng.choice([0, D, 2 * D]),
+                           'out': rng.choice(['ret', 'raise']), 'aw': rng.choice(['coro', 'coro', 'task']),
+                           'via': rng.choice(['ensure', 'ensure', 'threadsafe']), 'n': 1})
+    return {'mode': mode, 'callers': callers, 'stop_after': rng.choice([0, D, 4 * D]), 'dep': dep, 'phase2': phase2}
 
 
 class EnsureHarness:
     def __init__(self, A):
         self.A = A
 
-    def run(self, scen, strategy):
+    def run(self, scen, strategy, delays=None):
         A = self.A
         mode = scen['mode']
 
@@ -61,6 +68,7 @@ class EnsureHarness:
             elif mode == 'closed':
                 target.close()
             done = []
+            box2 = {}
             dep_event = aio.Event()
 
             def make_body(aid, c, tgt, is_future):
@@ -126,7 +134,7 @@ class EnsureHarness:
                                 aw = fut
                             # run_aw_threadsafe "does not handle event loop conflicts": only used on a
                             # target that runs forever in its own thread (loop_in_thread)
-                            if c['via'] == 'threadsafe' and tgt is not loop and stop is not None:
+                            if c['via'] == 'threadsafe' and tgt is not loop and (stop is not None or box2.get('stop') is not None):
                                 r = await A.run_aw_threadsafe(aw, tgt)
                             else:
                                 r = await A.ensure_aw(aw, tgt)
@@ -153,14 +161,28 @@ class EnsureHarness:
             # virtual-time bound: generous; expiry means some caller never returned
             s.block(lambda: len(done) == ncall, s.now + 600.0, 'join')
             emit('joined', len(done) == ncall)
+            if scen.get('phase2') and len(done) == ncall:
+                stop = A.loop_in_thread(target)
+                emit('lit_returned', target.is_running(), target._sim_runners)
+                box2['stop'] = stop
+                for j, c in enumerate(scen['phase2']):
+                    s.spawn(caller(ncall + j, c), f'C{ncall + j}')
+                n2 = ncall + len(scen['phase2'])
+                s.block(lambda: len(done) == n2, s.now + 600.0, 'join2')
+                emit('joined', len(done) == n2)
             if scen['stop_after']:
                 s.sleep(scen['stop_after'])
+            stop = stop or box2.get('stop')
             if stop is not None:
                 stop()
                 emit('stop_returned', target.is_running(), target._sim_runners)
             emit('max_runners', s.max_runners_seen)
 
-        return simrt.execute(main, strategy, max_steps=150000, watchdog=60.0)
+        def pre(s):
+            if delays:
+                s.line_delays = [dict(d) for d in delays]
+
+        return simrt.execute(main, strategy, max_steps=150000, watchdog=60.0, pre=pre)
 
 
 class C17(Check):
@@ -199,7 +221,13 @@ class C17(Check):
         else:
             strat = simrt.Strategy('stall', p=0.15, thread=rng.choice(['C0', 'C1', 'main', 'pool1of2']),
                                    k=rng.randrange(1, 200), seed=rng.randrange(1 << 30))
-        r = self.h.run(scen, strat)
+        delays = None
+        if rng.random() < 0.25:
+            # a long preemption of a caller thread or of a helper thread at one line of the cross-loop helpers
+            delays = [{'thread': rng.choice(['C0', 'C1', 'C', 'pool', 'pool', 'main']),
+                       'qual': rng.choice(['ensure_aw', 'ensure_aw', 'loop_in_thread', '_get_loop_lock', 'run_aw_threadsafe']),
+                       'nth': rng.randint(1, 30), 'd': rng.choice([U, D, 4 * D])}]
+        r = self.h.run(scen, strat, delays)
         res = CaseResult()
         res.sig = r.signature
         res.cov = {k: c for k, c in r.sched.line_cov.items() if k[0].startswith(self.anchors)}
@@ -217,6 +245,8 @@ class C17(Check):
         st['executions'] += 1
         mode = scen['mode']
         st[f'target_{mode}'] += 1
+        if r.sched.delays_fired:
+            st['long_delay_injected'] += 1
         if scen.get('dep'):
             # awaitables that depend on each other are outside the property's quantifier (they may dead-lock on an
             # idle target whichever caller's helper holds the loop); they are executed to compare trees, not judged
@@ -231,7 +261,7 @@ class C17(Check):
         ends = {e[1]: (i, e) for i, e in enumerate(log) if e[0] == 'aw_done'}
         for aid, (i, c) in calls.items():
             ci = int(aid.split('.')[0])
-            spec = scen['callers'][ci]
+            spec = (scen['callers'] + scen.get('phase2', []))[ci]
             own = c[4]
             rr = rets.get(aid)
             if mode == 'closed' and not own:
